@@ -112,16 +112,9 @@ pub fn check(prg: &str) -> Result<TypedProgram, Error> {
 
 /// Scans, parses, type-checks and then compiles the `"main"` fn of a program to a Boolean circuit.
 pub fn compile(prg: &str) -> Result<GarbleProgram, Error> {
-    let program = check(prg)?;
-    let (circuit, main) = program.compile("main")?;
-    let main = main.clone();
-    Ok(GarbleProgram {
-        program,
-        main,
-        circuit: CircuitType::Ssa(circuit),
-        consts: HashMap::new(),
-        const_sizes: HashMap::new(),
-    })
+    // (keeps the sizes of `usize` consts that the program defines itself, which are needed to
+    // parse arguments and outputs of const-sized array types)
+    compile_with_options(prg, CompileOptions::default())
 }
 
 /// Scans, parses, type-checks and then compiles the `"main"` fn of a program to a Boolean circuit.
